@@ -601,10 +601,36 @@ func DetExpr(c *core.Ctx, rule string) {
 						}
 						okAll, uses := true, 0
 						why := ""
+						cleanFrom := token.Pos(0) // after a reassignment the variable no longer holds the map-ordered sequence
+						ast.Inspect(fb.Body, func(x ast.Node) bool {
+							if as2, ok := x.(*ast.AssignStmt); ok && as2.Pos() >= pp.End() && cleanFrom == 0 {
+								for _, l := range as2.Lhs {
+									if objOf(info, l) == v {
+										// uses inside the right-hand side are still judged (e.g. the sort call); later ones are not
+										cleanFrom = as2.End()
+									}
+								}
+							}
+							return true
+						})
 						ast.Inspect(fb.Body, func(x ast.Node) bool {
 							id, ok := x.(*ast.Ident)
 							if !ok || info.Uses[id] != v || id.Pos() < pp.End() {
 								return true
+							}
+							if cleanFrom != 0 && id.Pos() >= cleanFrom {
+								return true
+							}
+							if as2, ok := parent[id].(*ast.AssignStmt); ok {
+								isLHS := false
+								for _, l := range as2.Lhs {
+									if l == ast.Expr(id) {
+										isLHS = true
+									}
+								}
+								if isLHS {
+									return true
+								}
 							}
 							uses++
 							if good, w := judge(id, depth+1); !good {
